@@ -174,3 +174,7 @@ def run(tier: str, rng: random.Random, proof_ok: bool) -> dict:
 
 def replay(path: str) -> int:
     return generic_replay(path, oracle)
+
+
+from ..facts import attach as _attach, typechecks as _typechecks  # noqa: E402
+_attach(globals(), _typechecks.obligation("C16"))
